@@ -57,6 +57,15 @@ def run_case(c, base):
     save_ops.append({"op": "solve", "sid": "s", "k": 1, "_after_copy": True})
     save_ops.append({"op": "solve", "sid": "s", "k": 1, "_after_copy": True})
     save_ops.append({"op": "ls", "dir": "d", "template_sid": "s"})
+    # the directory has been used before: an earlier process built a solver of the same class on the same problem class with *other* parameters
+    # there (that writes its config.yaml; no step is saved).  The directory must afterwards describe the run that saved into it last.
+    alt_kw = dict(c["kw"])
+    alt_kw.update({"forest": {"r1": 7.0, "p": 0.25}, "demoor": {"demand_gamma_mean": 2.0}, "hendrix": {"demand_poisson_mean_a": 1.5},
+                   "mirjalili": {"max_demand": 4}}[c["pk"]])
+    alt_new = dict(c["new"], eps="1/1024", maxbs=16, sid="prev")
+    if c["kind"] not in ("rvi", "periodic"):
+        alt_new["gamma"] = "3/4"
+    core.run_impl([{"op": "basedir", "path": base}, dict(prob, kwargs=alt_kw), alt_new], 1)
     saver = [r["resp"] for r in core.run_impl(save_ops, 1)]
     outs = []
     for j, (step, ov) in enumerate(c["restores"]):
@@ -90,7 +99,7 @@ def run(tier, seed):
                 "frequency 1 and its held state is recorded after every call; fresh processes restore latest and explicit steps under override "
                 "combinations (new directory, frequency, retention, async); restored values/iteration/gain/history/index/period compared bit for bit "
                 "with what the saver held at that step, the stored policy with the policy held at save time, configuration field by field, the "
-                "original directory listing before/after; error directories; load_checkpoint on config-less problems. "
+                "original directory listing before/after; every checkpoint directory was used before by a solver of the same classes with other parameters; error directories; load_checkpoint on config-less problems. "
                 "distinct non-trivial = successful restores compared")
     rng = random.Random(seed * 1009 + 10)
     n = 5 if tier == "quick" else 20
